@@ -53,6 +53,22 @@ Theorem statistic_equals_definition :
 Proof. exact Lemmas.statistic_equals_definition. Qed.
 Print Assumptions statistic_equals_definition.
 
+(* The same for views that contain integers (scalar entries: the public API and every IndexedData.compute_statistic):
+   a dimension of the data disappears, the position in subarray_slices and the axis of the data run apart in the
+   view recombination; `red` refers to the axes of the viewed array. *)
+Theorem statistic_equals_definition_int_views :
+  forall (A res : Type) (R : list A -> res) (nan : res), R [] = nan ->
+  forall shape (a : idx -> A) (filt : A -> bool) (m : option (idx -> bool)) (view : list ventry) (red : list bool),
+    Forall (fun n => 0 <= n) shape ->
+    length red = length (sel_shape (view_sel shape view)) ->
+    fst (stat_view_e A res R nan shape a filt m view red) = out_shape (sel_shape (view_sel shape view)) red /\
+    forall o, in_box (out_shape (sel_shape (view_sel shape view)) red) o ->
+      snd (stat_view_e A res R nan shape a filt m view red) o =
+      R (map a (filter (fun c => mask_fun_e m c && filt (a c))
+                       (map (to_under_e (view_sel shape view)) (lane0 (sel_shape (view_sel shape view)) red o)))).
+Proof. exact Lemmas.statistic_equals_definition_int_views. Qed.
+Print Assumptions statistic_equals_definition_int_views.
+
 (* Data.compute_statistic as a whole, outside the chunk loop and the SliceSubsetState shortcut *)
 Theorem compute_statistic_unchunked :
   forall (A res : Type) (R : list A -> res) (nan zero : res), R [] = nan ->
